@@ -31,8 +31,12 @@ func symPattern(it *Item, set *[256]bool) string {
 	for i := 0; i < len(it.Pattern); i++ {
 		if it.Pattern[i] == 0 {
 			s := verif.Byte("p" + itoa(k))
+			orig := byte(0)
+			if k < len(it.Extra) {
+				orig = it.Extra[k]
+			}
 			k++
-			verif.Assume(set[s])
+			verif.Assume(set[s] || (orig != 0 && s == orig))
 			b = append(b, s)
 		} else {
 			b = append(b, it.Pattern[i])
@@ -101,6 +105,16 @@ func runC07(c *reCtx, it *Item) {
 			prevStart, prevEnd = a[0], a[1]
 		}
 		_ = re.ReplaceAll(h, []byte("$0-$1"))
+		_ = re.ReplaceAllLiteral(h, []byte("r"))
+		_ = re.ReplaceAllStringFunc(string(h), func(m string) string { return m })
+		itPrevS, itPrevE, itN := -1, -1, 0
+		for m := range re.AllIndex(h) {
+			verif.Assert(0 <= m[0] && m[0] <= m[1] && m[1] <= len(h), "C07 AllIndex span not within the haystack")
+			verif.Assert(m[0] >= itPrevE && m[0] >= itPrevS && !(m[0] == itPrevS && m[1] == itPrevE), "C07 AllIndex matches overlap, repeat or are out of order")
+			itPrevS, itPrevE = m[0], m[1]
+			itN++
+			verif.Assert(itN <= len(h)+1, "C07 AllIndex yields more matches than positions")
+		}
 		_ = re.Split(string(h), -1)
 		_ = re.Match(h)
 		verif.Assert(eqBytes(h, keep), "C07 a search modified the haystack")
@@ -191,8 +205,18 @@ func runC09(it *Item) {
 		verif.Assert(g.SubexpIndex("nosuchname") == -1, "C09 SubexpIndex of an unknown name is not -1")
 		txt, merr := g.MarshalText()
 		verif.Assert(merr == nil && string(txt) == p, "C09 MarshalText does not return the pattern")
+		// regexp's UnmarshalText calls Compile (Perl syntax) whatever compiled the original, so a POSIX-only pattern
+		// such as a** fails to round-trip there too: the oracle is regexp's own outcome, not "always succeeds".
 		var u coregex.Regex
-		verif.Assert(u.UnmarshalText(txt) == nil && u.String() == p, "C09 UnmarshalText(MarshalText()) does not round-trip")
+		var wu regexp.Regexp
+		wtxt, _ := w.MarshalText()
+		uerr, wuerr := u.UnmarshalText(txt), wu.UnmarshalText(wtxt)
+		verif.Assert((uerr == nil) == (wuerr == nil), "C09 UnmarshalText(MarshalText()) succeeds/fails differently from regexp")
+		if uerr == nil {
+			verif.Assert(u.String() == p && wu.String() == p, "C09 UnmarshalText(MarshalText()) does not round-trip")
+		} else {
+			verif.Assert(uerr.Error() == wuerr.Error(), "C09 UnmarshalText error text differs from regexp")
+		}
 		verif.Assert(g.Copy().String() == p, "C09 Copy().String() differs")
 	default:
 		panic("C09: unknown API " + it.API)
